@@ -9,6 +9,7 @@ use sudachi::analysis::stateful_tokenizer::StatefulTokenizer;
 use sudachi::analysis::stateless_tokenizer::DictionaryAccess;
 use sudachi::dic::dictionary::JapaneseDictionary;
 use sudachi::dic::word_id::WordId;
+use sudachi::dic::subset::InfoSubset;
 use sudachi::prelude::*;
 
 fn pos_str(name: &str) -> String {
@@ -86,6 +87,15 @@ fn observe(dict: &Rc<JapaneseDictionary>, d: usize, w: usize) -> Result<Value, S
     let wid = WordId::new(d as u8, w as u32);
     let wi = dict.lexicon().get_word_info(wid).map_err(|e| format!("{:?}", e))?;
     let lex_pos = dict.grammar().pos_components(wi.pos_id()).join(",");
+    // the same through restricted field requests: the POS id is rebased and the references are stamped whichever fields are asked for
+    let wp = dict.lexicon().get_word_info_subset(wid, InfoSubset::POS_ID).map_err(|e| format!("{:?}", e))?;
+    let wr = dict.lexicon().get_word_info_subset(wid, InfoSubset::SPLIT_A).map_err(|e| format!("{:?}", e))?;
+    let sub_pos = pos_name(&dict.grammar().pos_components(wp.pos_id()).join(","));
+    let sub_refs: Vec<Value> = wr.a_unit_split().iter().map(|r| json!([r.dic(), r.word()])).collect();
+    if sub_pos != pos_name(&lex_pos) || json!(sub_refs) != json!(wi.a_unit_split().iter().map(|r| json!([r.dic(), r.word()])).collect::<Vec<_>>()) {
+        return Ok(json!({"n": 1, "dic": m.dictionary_id(), "word": m.word_id().word(), "pos": pos_name(&m.part_of_speech().join(",")), "lexpos": format!("{} under {{POS_ID}}", sub_pos),
+                         "refs": sub_refs, "oov": m.is_oov()}));
+    }
     Ok(json!({"n": 1, "dic": m.dictionary_id(), "word": m.word_id().word(), "pos": pos_name(&m.part_of_speech().join(",")), "lexpos": pos_name(&lex_pos),
               "refs": wi.a_unit_split().iter().map(|r| json!([r.dic(), r.word()])).collect::<Vec<_>>(), "oov": m.is_oov()}))
 }
